@@ -406,12 +406,12 @@ def gen_cases(ctx, deep=False):
     # witness of Props/C48.gc_unobservable_counterexample: replayed every run (known finding)
     yield {"n": 1, "eoc": 0, "ops": PHANTOM_OPS, "src": "phantom"}
     yield {"n": 1, "eoc": 1, "ab": 0, "ops": NULLW_OPS, "src": "nullw"}
-    for _ in range(3500 if thorough else 450):
+    for _ in range(2000 if thorough else 450):
         ab = ctx.rng.choice([1, 1, 0])
         n, ops = gen_random(ctx.rng, ctx.tier, ab)
         yield {"n": n, "eoc": ctx.rng.choice([0, 1] if ab else [0, 0, 0, 1]), "ab": ab, "ops": ops, "src": "random"}
     for seq in small_scope_noautobegin():
-        if thorough or ctx.rng.random() < 0.15:
+        if ctx.rng.random() < (0.5 if thorough else 0.15):
             yield {"n": 2, "eoc": 0, "ab": 0, "ops": seq, "src": "small-noautobegin"}
     for seq in small_scope(2):
         yield {"n": 2, "eoc": ctx.rng.choice([0, 1]), "ops": seq, "src": "small2"}
@@ -420,7 +420,7 @@ def gen_cases(ctx, deep=False):
             yield {"n": 2, "eoc": ctx.rng.choice([0, 1]), "ops": seq, "src": "small3"}
     if thorough:
         for seq in small_scope(4):
-            if ctx.rng.random() < 0.15:
+            if ctx.rng.random() < 0.06:
                 yield {"n": 2, "eoc": ctx.rng.choice([0, 1]), "ops": seq, "src": "small4"}
 
 
@@ -495,7 +495,7 @@ def run(ctx, deep=False):
         for key, detail in problems:
             ctx.violation(key, jc, detail)
         cases.append(jc)
-        if len(ctx.violations) >= 25:  # enough evidence; a broken tree can make every history slow
+        if sum(1 for v_ in ctx.violations if v_["key"] not in KNOWN_KEYS) >= 25:  # enough evidence; a broken tree can make every history slow
             impl_out.append(line)
             reqs.append(request(case))
             break
